@@ -145,6 +145,13 @@ def inlineSource (imports : List Req) (target : Nat) : Nat :=
   | [] => target
   | vs => vs.foldl max 0
 
+/-- `source_schema == target_schema` for two entries of `SCHEMAS[dom]` that both exist
+    (the comparison is object identity of `OpSchema`s, i.e. equal `since_version`) -/
+def sameSchema (F : Facts) (dom : String) (o v tgt : Nat) : Bool :=
+  match F.schemaSince dom o v, F.schemaSince dom o tgt with
+  | some a, some b => a == b
+  | _, _ => false
+
 /-- `adapt_best_effort(node, protos, opsets, …)` at decision level. -/
 def adaptBestEffort (F : Facts) (opsets : List Req) : PNode → Decision
   | .mk (.inline imports hasDefault) _ _ _ _ =>
@@ -168,10 +175,7 @@ def adaptBestEffort (F : Facts) (opsets : List Req) : PNode → Decision
         | some tgt =>
           if v = tgt then .keepSameVersion
           else
-            let same := match F.schemaSince dom o v, F.schemaSince dom o tgt with
-              | some a, some b => a == b
-              | _, _ => false
-            if same then .keepSameSchema
+            if sameSchema F dom o v tgt then .keepSameSchema
             else if d ≠ "" then .keepNonDefault v tgt
             else if concrete then .convert v tgt else .convertError v tgt
 
